@@ -27,6 +27,15 @@ func ConcatCar(c *cli.Context) (err error) {
 		defer outStream.(*os.File).Close()
 	}
 
+	// A CARv2 announces the size of its data payload in the header that precedes it, so for a
+	// version 2 output the size of the concatenation has to be known before anything is written.
+	var v2PayloadSize uint64
+	if c.Int("version") == 2 {
+		if v2PayloadSize, err = concatPayloadSize(c.Args().Slice()); err != nil {
+			return err
+		}
+	}
+
 	first := true
 	for _, arg := range c.Args().Slice() {
 		inF, err := os.Open(arg)
@@ -56,8 +65,13 @@ func ConcatCar(c *cli.Context) (err error) {
 
 			if first {
 				if c.Int("version") == 2 {
-					cf.Header.IndexOffset = 0
-					if _, err := cf.Header.WriteTo(outStream); err != nil {
+					// pragma, then a header describing the concatenated payload, without index
+					if _, err := outStream.Write(carv2.Pragma); err != nil {
+						return fmt.Errorf("failed to write pragma: %w", err)
+					}
+					v2Header := carv2.NewHeader(v2PayloadSize)
+					v2Header.IndexOffset = 0
+					if _, err := v2Header.WriteTo(outStream); err != nil {
 						return fmt.Errorf("failed to write header: %w", err)
 					}
 				}
@@ -76,4 +90,54 @@ func ConcatCar(c *cli.Context) (err error) {
 	}
 
 	return nil
+}
+
+// concatPayloadSize returns the size of the CARv1 payload that concatenating the given archives
+// produces: the first archive's header followed by the sections of all of them.
+func concatPayloadSize(args []string) (uint64, error) {
+	var total uint64
+	for i, arg := range args {
+		inF, err := os.Open(arg)
+		if err != nil {
+			return 0, fmt.Errorf("failed to open %s: %w", arg, err)
+		}
+		size, headerSize, err := func() (uint64, uint64, error) {
+			defer inF.Close()
+			cf, err := carv2.NewReader(inF)
+			if err != nil {
+				return 0, 0, err
+			}
+			var payloadSize uint64
+			if cf.Version == 2 {
+				payloadSize = cf.Header.DataSize
+			} else {
+				st, err := inF.Stat()
+				if err != nil {
+					return 0, 0, err
+				}
+				payloadSize = uint64(st.Size())
+			}
+			cv1, err := cf.DataReader()
+			if err != nil {
+				return 0, 0, err
+			}
+			carReader, err := carv1.NewCarReader(cv1)
+			if err != nil {
+				return 0, 0, err
+			}
+			hs, err := carv1.HeaderSize(carReader.Header)
+			return payloadSize, hs, err
+		}()
+		if err != nil {
+			return 0, fmt.Errorf("failed to open %s: %w", arg, err)
+		}
+		if size < headerSize {
+			return 0, fmt.Errorf("failed to open %s: payload shorter than its header", arg)
+		}
+		total += size - headerSize
+		if i == 0 {
+			total += headerSize
+		}
+	}
+	return total, nil
 }
